@@ -21,6 +21,10 @@ import BytomModel.Lemmas.CasperRun
 namespace BytomModel.Props.C17
 open BytomModel.Node
 
+deriving instance DecidableEq for Header
+deriving instance DecidableEq for CkptRec
+deriving instance DecidableEq for Ckpt
+
 /-- `SupLink.IsMajority`: `count > n*2/3` in Go's truncating integer arithmetic is exactly
     "strictly more than two thirds": `3·count > 2·n`. -/
 theorem isMajority_iff (l : SupLink) (n : Nat) : isMajority l n = true ↔ 3 * l.sigs.length > 2 * n := by
@@ -188,15 +192,15 @@ theorem mergeSort_pair {α : Type} (le : α → α → Bool) (a b : α) :
 /-- the restart reloads b2 with the forged slot inside its sup link -/
 theorem pre_restart : pre.restart = some post := by
   unfold State.restart
-  have h1 : pre.header pre.best = some b2 := by rfl
-  have h2 : pre.header pre.statusFin = some g := by rfl
+  have h1 : pre.header pre.best = some b2 := by decide +kernel
+  have h2 : pre.header pre.statusFin = some g := by decide +kernel
   rw [h1, h2]
   have h3 : (pre.ckpts.filter (fun r =>
       (({ hash := pre.statusFin, height := g.height, parentHash := 0, status := .finalized } : CkptRec).height < r.height ||
         (({ hash := pre.statusFin, height := g.height, parentHash := 0, status := .finalized } : CkptRec).height == r.height &&
           decide (pre.rankOf ({ hash := pre.statusFin, height := g.height, parentHash := 0, status := .finalized } : CkptRec).hash ≤ pre.rankOf r.hash))))) =
       [{ hash := 2, height := 2, parentHash := 0, status := .unjustified }, { hash := 0, height := 0, parentHash := 0, status := .justified }] := by
-    rfl
+    decide +kernel
   simp only [h3]
   rw [mergeSort_pair]
   rfl
@@ -214,7 +218,7 @@ theorem run_eq : run (State.init cfg g) evs = fin := by
 /-- after the single valid vote b2 is justified; its only link holds the forged slot -/
 theorem fin_tree : fin.tree.flatten.map (fun c => (c.hash, c.status, c.sup)) =
     [(0, .finalized, []), (2, .justified, [{ src := 0, srcHeight := 7, sigs := [{ slot := 0, valid := true }, { slot := 1, valid := false }] }])] := by
-  decide
+  decide +kernel
 def rootFinal : Ckpt := { hash := 0, height := 0, parentHash := 0, status := .finalized, sup := [] }
 def b2Justified : Ckpt := { hash := 2, height := 2, parentHash := 0, status := .justified, sup := [{ src := 0, srcHeight := 7, sigs := [{ slot := 0, valid := true }, { slot := 1, valid := false }] }] }
 end Witness
@@ -234,7 +238,7 @@ theorem c17_across_restart_refuted : ¬ c17_across_restart := by
   have h' := h Witness.U Witness.cfg Witness.g Witness.evs (by decide) rfl rfl hb
   rw [Witness.run_eq] at h'
   have hmem : Witness.b2Justified ∈ Witness.fin.tree.flatten := by
-    have : Witness.fin.tree.flatten = [Witness.rootFinal, Witness.b2Justified] := by rfl
+    have : Witness.fin.tree.flatten = [Witness.rootFinal, Witness.b2Justified] := by decide +kernel
     rw [this]; simp
   rcases h' _ hmem rfl with h0 | ⟨l, hl, _, _, hs⟩
   · exact absurd h0 (by decide)
@@ -272,7 +276,7 @@ example : RunOK Witness.U exampleEvs := by
   · trivial
 
 example : (run (State.init Witness.cfg Witness.g) exampleEvs).tree.flatten.map (fun c => (c.hash, c.status, c.sup.map (fun l => l.sigs.length))) =
-    [(0, .finalized, []), (2, .justified, [2])] := by decide
+    [(0, .finalized, []), (2, .justified, [2])] := by decide +kernel
 
 example : isMajority { src := 0, srcHeight := 0, sigs := [⟨0, true⟩, ⟨1, true⟩, ⟨2, true⟩] } 4 = true := by decide
 example : isMajority { src := 0, srcHeight := 0, sigs := [⟨0, true⟩, ⟨1, true⟩] } 3 = false := by decide
